@@ -957,10 +957,17 @@ def _ufunc_wrapper(uf):
 
 
 def _ufunc_at(uf, a, idx, b):
-    if uf.__name__ != "add":
+    if isinstance(a, SymArray) and not has_sym(a) and not has_sym(idx) and not has_sym(b) and a.dtype.kind != "S":
+        # everything concrete: the real routine on a real copy, written back
+        real = to_real(a)
+        uf.at(real, to_real(idx), to_real(b)) if b is not None else uf.at(real, to_real(idx))
+        a.vals[...] = obj(real)
+        return
+    if uf.__name__ not in ("add", "minimum", "maximum"):
         raise UnsupportedSymbolicOp(f"{uf.__name__}.at")
     if not isinstance(a, SymArray):
         raise UnsupportedSymbolicOp("ufunc.at on real array with symbolic operands")
+    combine = {"add": S_add, "minimum": lambda u, v: S_where(S_lt(v, u), v, u), "maximum": lambda u, v: S_where(S_lt(u, v), v, u)}[uf.__name__]
     idx_c = conc_index(idx) if not isinstance(idx, tuple) else tuple(conc_index(i) for i in idx)
     vals = obj(b) if isinstance(b, (SymArray, _np.ndarray, list, tuple)) else b
     it = _np.broadcast(*(idx_c if isinstance(idx_c, tuple) else (idx_c,)))
@@ -968,7 +975,7 @@ def _ufunc_at(uf, a, idx, b):
     bv = _np.broadcast_to(vals, shape) if isinstance(vals, _np.ndarray) else None
     for n, pos in enumerate(_np.ndindex(*shape)):
         ii = tuple(_np.broadcast_to(_np.asarray(i), shape)[pos] for i in (idx_c if isinstance(idx_c, tuple) else (idx_c,)))
-        a.vals[ii] = wrap_elem(S_add(a.vals[ii], bv[pos] if bv is not None else vals), a.dtype)
+        a.vals[ii] = wrap_elem(combine(a.vals[ii], bv[pos] if bv is not None else vals), a.dtype)
 
 
 for _n in ("add", "subtract", "multiply", "maximum", "minimum", "logical_and", "logical_or", "logical_xor", "logical_not",
